@@ -296,8 +296,8 @@ def run(chk):
                     r1.ok("exit(%s) of _connect under %s: no open socket outside self.sock" % (kind, cfg_name(cfg)), sample=(n_exits % 37 == 1))
                 if kind == "exc":
                     cur = s.get("self.sock", TOP)
-                    if isinstance(cur, Ref) and s.get(("obj", cur.id)) == "open":
-                        r1.fail("Client._connect:raises-with-live-self.sock", "_connect can raise while self.sock holds an open socket", fn=connect, line=v.origin, witness=fmt_trace(t))
+                    if isinstance(cur, Ref):
+                        r1.fail("Client._connect:raises-with-self.sock-set", "_connect can raise while self.sock refers to a socket (%s): the next call does not reconnect but uses that socket" % s.get(("obj", cur.id)), fn=connect, line=v.origin, witness=fmt_trace(t))
                 if kind == "ret":
                     cur = s.get("self.sock", TOP)
                     if not isinstance(cur, Ref) or s.get(("obj", cur.id)) != "open":
@@ -373,8 +373,13 @@ def run(chk):
         for old in (False, True):
             dom = SockDomain(prog, f, connect_summary=("ok", "exc"))
             st = Env({"self.sock": Ref("previous"), ("obj", "previous"): "open"}) if old else Env({"self.sock": NONE})
-            Interp(dom, f.node, prog).run(st)
+            o5 = Interp(dom, f.node, prog).run(st)
             bad = [v for v in dom.violations if v[0] == "io-without-connection"]
+            for s5, e5, t5 in o5.of("exc"):
+                if e5.cls == "AttributeError":
+                    stmt = stmt_at(f.node, e5.origin)
+                    if "self.sock." in stmt:
+                        bad.append(("io-without-connection", "`%s` is reachable with self.sock None (lazy-reconnect guard missing): the call fails with AttributeError instead of reconnecting" % stmt, ast.parse("0").body[0], s5))
             for construct, msg, node, s in bad:
                 r5.fail("%s:%s" % (f.qualname, construct), msg, fn=f, node=node)
             if not bad:
